@@ -281,6 +281,9 @@ func init() {
 				return intArgErr(c, a[0], THash, a[1])
 			}
 			cnt = n
+			if cnt == math.MinInt64 {
+				return AnyErr() // outside -LONG_MAX..LONG_MAX: a range error whatever the key holds
+			}
 			if len(a) == 3 {
 				if upper(a[2]) != "WITHVALUES" {
 					return argErr(c, a[0], THash)
@@ -309,9 +312,6 @@ func init() {
 		}
 		if o == nil || cnt == 0 {
 			return Val(Arr())
-		}
-		if cnt == math.MinInt64 {
-			return Unspecified("count -2^63")
 		}
 		h := copyMap(o.H)
 		return Exp{Note: "random fields", Pred: func(g resp.Value) string {
